@@ -2,6 +2,9 @@ use std::io::Write;
 
 use lzv::case::{self, Ctx, Shard, Tier};
 
+#[global_allocator]
+static GLOBAL: lzv::alloc::Monitor = lzv::alloc::Monitor;
+
 fn arg(args: &[String], name: &str) -> Option<String> {
     args.iter().position(|a| a == name).and_then(|i| args.get(i + 1).cloned())
 }
